@@ -1,4 +1,5 @@
 import CbiVerif.Lemmas.FS
+import CbiVerif.Lemmas.WalkRoots
 import Mathlib.Data.List.Nodup
 /-! Helper lemmas for C09 / C15: `CodeBase.__contains__`, `__iter__` over the file-system model. -/
 namespace CbiVerif.CB
@@ -169,7 +170,7 @@ theorem isTrue_iff (r : Except Err Bool) : isTrue r = true ↔ r = .ok true := b
   | ok b => cases b <;> simp [isTrue]
 
 theorem mem_iter (cfg : Cfg) (fs : FS) (n : Nat) (roots l : List Comps) (h : iter cfg fs n roots = .ok l) (x : Comps) :
-    x ∈ l ↔ (∃ root ∈ roots, x ∈ rglob fs root) ∧ contains cfg fs n roots [] ⟨true, x⟩ = .ok true := by
+    x ∈ l ↔ (∃ root ∈ walkRoots roots, x ∈ rglob fs root) ∧ contains cfg fs n roots [] ⟨true, x⟩ = .ok true := by
   rw [iter_ok cfg fs n roots l h, List.mem_filter, isTrue_iff]
   unfold candidates
   rw [List.mem_flatMap]
@@ -185,9 +186,13 @@ theorem iter_complete' (cfg : Cfg) (fs : FS) (n : Nat) (roots l : List Comps) (c
     (hwf : wf fs = true) (hfuel : bigFuel fs n) (h : iter cfg fs n roots = .ok l)
     (hcr : c ∉ roots)
     (hc : isMember cfg fs roots c) : c ∈ l := by
-  obtain ⟨hfile, hext, root, hfind, hign⟩ := hc
-  have hmem : root ∈ roots := List.mem_of_find?_eq_some hfind
-  have hpre : root <+: c := List.isPrefixOf_iff_prefix.mp (List.find?_some (p := fun (d : Comps) => d.isPrefixOf c) hfind)
+  obtain ⟨hfile, hext, root₀, hfind, hign⟩ := hc
+  have hmem₀ : root₀ ∈ roots := List.mem_of_find?_eq_some hfind
+  have hpre₀ : root₀ <+: c := List.isPrefixOf_iff_prefix.mp (List.find?_some (p := fun (d : Comps) => d.isPrefixOf c) hfind)
+  -- the directory that is walked: the outermost listed directory around `root₀`
+  obtain ⟨root, hwalk, hwr⟩ := exists_walkRoot' roots root₀ hmem₀
+  have hmem : root ∈ roots := walkRoots_subset roots root hwalk
+  have hpre : root <+: c := hwr.trans hpre₀
   have hne : c ≠ [] := by
     intro hE; subst hE; rw [lstat_nil] at hfile; cases hfile
   have hkey : c ∈ keys fs := lstat_mem_keys fs c _ hne hfile
@@ -208,10 +213,10 @@ theorem iter_complete' (cfg : Cfg) (fs : FS) (n : Nat) (roots l : List Comps) (c
       simp only [List.length_append]; omega
     · rw [List.drop_left]; exact hpar.2
   rw [mem_iter cfg fs n roots l h]
-  refine ⟨⟨root, hmem, hin⟩, ?_⟩
+  refine ⟨⟨root, hwalk, hin⟩, ?_⟩
   rw [contains_canon cfg fs n roots _ hcan (hfuel _ hkey)]
   have : (isFileE (lstat fs (root ++ t)) && accepted cfg roots (root ++ t)) = true :=
-    (accepted_iff cfg fs roots _).mpr ⟨hfile, hext, root, hfind, hign⟩
+    (accepted_iff cfg fs roots _).mpr ⟨hfile, hext, root₀, hfind, hign⟩
   rw [this]
 
 theorem rglob_nodup (fs : FS) (hwf : wf fs = true) (root : Comps) : (rglob fs root).Nodup := by
@@ -220,12 +225,28 @@ theorem rglob_nodup (fs : FS) (hwf : wf fs = true) (root : Comps) : (rglob fs ro
   · exact List.Nodup.filter _ (wf_keys_nodup fs hwf)
   · exact List.nodup_nil
 
-theorem iter_nodup' (cfg : Cfg) (fs : FS) (n : Nat) (roots l : List Comps)
-    (hwf : wf fs = true) (hroots : roots.Pairwise (fun a b => ¬ a <+: b ∧ ¬ b <+: a))
-    (h : iter cfg fs n roots = .ok l) : l.Nodup := by
-  rw [iter_ok cfg fs n roots l h]
-  apply List.Nodup.filter
+/-- no entry is a candidate twice, whatever directories are listed (the walked ones never overlap) -/
+theorem candidates_nodup (fs : FS) (hwf : wf fs = true) (roots : List Comps) : (candidates fs roots).Nodup := by
   unfold candidates
+  rw [List.nodup_flatMap]
+  refine ⟨fun r _ => rglob_nodup fs hwf r, ?_⟩
+  refine List.Pairwise.imp ?_ (walkRoots_pairwise roots)
+  intro a b hab x hxa hxb
+  have ha := ((mem_rglob fs a x).mp hxa).2.2.1
+  have hb := ((mem_rglob fs b x).mp hxb).2.2.1
+  rcases List.prefix_or_prefix_of_prefix ha hb with hp | hp
+  · exact hab.1 hp
+  · exact hab.2 hp
+
+theorem iter_nodup' (cfg : Cfg) (fs : FS) (n : Nat) (roots l : List Comps)
+    (hwf : wf fs = true) (h : iter cfg fs n roots = .ok l) : l.Nodup := by
+  rw [iter_ok cfg fs n roots l h]
+  exact List.Nodup.filter _ (candidates_nodup fs hwf roots)
+
+/-- the candidates of the unrepaired enumeration are free of repetitions only when the listed directories do not overlap -/
+theorem candidatesUnrepaired_nodup (fs : FS) (hwf : wf fs = true) (roots : List Comps)
+    (hroots : roots.Pairwise (fun a b => ¬ a <+: b ∧ ¬ b <+: a)) : (candidatesUnrepaired fs roots).Nodup := by
+  unfold candidatesUnrepaired
   rw [List.nodup_flatMap]
   refine ⟨fun r _ => rglob_nodup fs hwf r, ?_⟩
   refine List.Pairwise.imp ?_ hroots
@@ -235,6 +256,41 @@ theorem iter_nodup' (cfg : Cfg) (fs : FS) (n : Nat) (roots l : List Comps)
   rcases List.prefix_or_prefix_of_prefix ha hb with hp | hp
   · exact hab.1 hp
   · exact hab.2 hp
+
+/-- an entry below a listed directory is below the walked directory around it (well-formed file system: the
+parents of an entry are real directories all the way up) -/
+theorem rglob_outer (fs : FS) (hwf : wf fs = true) (w r x : Comps) (hwr : w <+: r) (hx : x ∈ rglob fs r) :
+    x ∈ rglob fs w := by
+  obtain ⟨_, hkey, hrx, hlen, _⟩ := (mem_rglob fs r x).mp hx
+  have hwx : w <+: x := hwr.trans hrx
+  have hwl : w.length < x.length := Nat.lt_of_le_of_lt hwr.length_le hlen
+  obtain ⟨t, rfl⟩ := hwx
+  have ht : t ≠ [] := by
+    intro hE; subst hE; simp at hwl
+  have hpar : dirPath fs (w ++ t).dropLast = true := (wf_parent_dirPath fs hwf _ hkey).1
+  rw [List.dropLast_append_of_ne_nil ht] at hpar
+  unfold dirPath at hpar
+  rw [allFrom_append, Bool.and_eq_true, List.nil_append] at hpar
+  rw [mem_rglob]
+  refine ⟨dirPath_isDir fs w hpar.1, hkey, List.prefix_append _ _, hwl, ?_⟩
+  rw [List.drop_left]; exact hpar.2
+
+/-- the repair removes repetitions and nothing else: the same entries are candidates -/
+theorem mem_candidates_iff (fs : FS) (hwf : wf fs = true) (roots : List Comps) (x : Comps) :
+    x ∈ candidates fs roots ↔ x ∈ candidatesUnrepaired fs roots := by
+  unfold candidates candidatesUnrepaired
+  rw [List.mem_flatMap, List.mem_flatMap]
+  constructor
+  · rintro ⟨w, hw, hx⟩; exact ⟨w, walkRoots_subset roots w hw, hx⟩
+  · rintro ⟨r, hr, hx⟩
+    obtain ⟨w, hw, hwr⟩ := exists_walkRoot' roots r hr
+    exact ⟨w, hw, rglob_outer fs hwf w r x hwr hx⟩
+
+/-- the candidates are the same, up to order, for every order of the listed directories -/
+theorem candidates_perm (fs : FS) (r₁ r₂ : List Comps) (h : r₁.Perm r₂) :
+    (candidates fs r₁).Perm (candidates fs r₂) := by
+  unfold candidates
+  exact (walkRoots_perm r₁ r₂ h).flatMap_right _
 
 /-- an enumerated path is the canonical path of a member, or a symbolic link that resolves to a member,
 or a link whose text the OS does not resolve although `realpath` arrives at something that exists -/
